@@ -5,6 +5,13 @@ behind the byte-level connection.  After EVERY operation the table is read back 
 (flow-stats request decoded by mc/refs/ofwire.py) and compared, together with the messages the
 switch emitted, with the reference state machine in mc/refs/reftable.py.  The search runs against a switch with the
 default (practically unbounded) flow table and against switches whose table holds 0 - 3 entries (CAP_ROOTS).
+
+In those searches the harness fires the expiry sweep by hand (table.remove_expired_entries()).  SWEEP_ROOTS repeat the
+search against the SELF-SWEEPING switch the statement's anchors name (pox.datapaths' ExpiringSwitch = ExpireMixin +
+SoftwareSwitch): the switch hands its sweep to a recurring pox.lib.recoco Timer, and that Timer task is run by a real
+recoco Scheduler + inline SelectHub whose select() waits on the virtual clock (VScheduler).  Time passes only through
+("run", d) operations, during which the switch sweeps whenever ITS timer fires; the reference sweeps every period
+counted from the construction of the switch.  Every history is closed by letting SETTLE seconds pass without input.
 """
 import struct
 from mc.engine import bfs
@@ -96,16 +103,146 @@ def all_ops ():
           ("rx", 1), ("rx", 2), ("tick", 1.1), ("tick", 2.1), ("sweep",), ("ticksweep", 2.1)]
   return ops
 OPS = all_ops()
+# the self-sweeping switch: no sweep by hand, time passes with the scheduler running (dyadic steps: the virtual
+# clock arithmetic is exact; operations happen at construction + 0.25 + multiples of 0.5, never on a sweep instant)
+HAND_TIME = (("tick", 1.1), ("tick", 2.1), ("sweep",), ("ticksweep", 2.1))
+def sweep_ops (thorough=False, core=False):
+  runs = [("run", 1.0), ("run", 2.0)] + ([("run", 0.5), ("run", 4.5)] if thorough else [])
+  ops = [o for o in OPS if o not in HAND_TIME]
+  if core:
+    # the part of the alphabet that sets, refreshes or ends a timeout (for the deepest search from the empty table)
+    ops = [o for o in ops if o in SWEEP_CORE]
+  return ops + runs
+SWEEP_CORE = ([("add", m, 1, v) for m in "ABCD" for v in ("rem-idle", "rem-hard")] +
+              [("add", "A", 2, "rem-idle"), ("add", "C", 2, "rem-hard"), ("add", "A", 1, "plain"),
+               ("mod", "A", 1), ("mods", "A", 1), ("del", "A"), ("dels", "C", 1), ("del", "ALL"), ("del-out", 2), ("rx", 1), ("rx", 2)])
+SWEEP_OFFSET = 0.25       # the first operation reaches the switch this long after it was built
+SETTLE = 6.5              # > largest timeout (3) + largest period (3): everything that can time out has met its sweep
+
+
+# ---------------------------------------------------------------------------------------------------
+# the switch's own expiry timer, run by the real recoco scheduler on the virtual clock
+# ---------------------------------------------------------------------------------------------------
+ESCAPED = []              # what tasks raised into Scheduler.cycle (which prints it and drops the task)
+
+class _TracebackTap (object):
+  """stands in for the `traceback` module inside recoco: Scheduler.cycle reports what a task raised through it"""
+  def print_exc (self, *a, **k):
+    import sys
+    ESCAPED.append(sys.exc_info()[1])
+  def __getattr__ (self, n):
+    import traceback
+    return getattr(traceback, n)
+
+
+class VScheduler (object):
+  """A real pox.lib.recoco Scheduler with the inline SelectHub (no thread).  recoco's `time` is the virtual clock and
+  the hub's select function is virtual: with a wake-up pending on the pinger it returns at once; otherwise it lets
+  the clock jump to the end of the timeout the hub computed (the earliest timer), or - when that lies beyond the
+  instant the caller runs to - to that instant, reporting only the pinger so that no timer is released early.
+  Everything else (Scheduler.schedule / cycle, ScheduleTask, Sleep.execute, SelectHub.registerTimer / _select /
+  _return, Timer.run with selfStoppable / cancel / recurring) is the real code."""
+  def __init__ (self, clock):
+    import pox.lib.recoco.recoco as R, pox.lib.util as U
+    from mc.env import FakePinger
+    self.R, self.clock = R, clock
+    R.time = clock
+    if not isinstance(R.traceback, _TracebackTap):
+      R.traceback = _TracebackTap()
+      R.print = lambda *a, **k: None
+    old = U.makePinger; U.makePinger = FakePinger
+    try: self.sch = R.Scheduler(isDefaultScheduler=True, startInThread=False, threaded_selecthub=False)
+    finally: U.makePinger = old
+    self.hub = self.sch._selectHub
+    self.hub._select_func = self._select
+    self.target = clock.now
+    self.at_target = False
+    self.steps = 0
+
+  def _select (self, rl, wl, xl, timeout):
+    p = self.hub._pinger
+    if p.pings: return ([p], [], [])
+    wake = self.clock.now + timeout
+    if wake <= self.target:
+      self.clock.now = wake
+      return ([], [], [])
+    self.clock.now = self.target
+    self.at_target = True
+    return ([p], [], [])
+
+  def run_until (self, t):
+    """what Scheduler.run() does, until virtual time t with nothing left to run"""
+    sch = self.sch
+    self.target = t
+    del ESCAPED[:]
+    n = 0
+    while True:
+      while sch._ready:
+        sch.cycle(); self.steps += 1; n += 1
+        if n > 10000: raise RuntimeError("scheduler does not come to rest")
+      self.at_target = False
+      self.hub.idle()
+      n += 1
+      if n > 10000: raise RuntimeError("scheduler does not come to rest")
+      if self.at_target and not sch._ready: break
+    if ESCAPED:
+      e = ESCAPED[0]; del ESCAPED[:]
+      raise e
+
+  def sleeping (self, task):
+    """virtual instant at which the hub will wake the task, None if it is not waiting for a timer"""
+    ent = self.hub._tasks.get(task)
+    return None if ent is None else ent[4]
+
+
+def SelfSweepStack (clock, period=None, dpid=1, ports=4, **kw):
+  """mc.env.SwitchStack around the switch class pox.datapaths.softwareswitch launches: ExpireMixin + SoftwareSwitch.
+  period None = ExpireMixin's default, otherwise passed as expire_period."""
+  from mc.env import SwitchStack, FakeSock, FakePinger, boot
+  boot()
+  import pox.datapaths.switch as sw
+  import pox.openflow.flow_table as ft
+  from pox.lib.ioworker import RecocoIOWorker
+  class ExpiringSwitch (sw.ExpireMixin, sw.SoftwareSwitch):
+    pass
+  self = SwitchStack.__new__(SwitchStack)
+  self.swmod = sw; self.clock = clock
+  sw.time = clock; ft.time = clock
+  self.sock = FakeSock()
+  self.worker = RecocoIOWorker(self.sock)
+  self.worker.pinger = FakePinger()
+  self.closed = []
+  self.worker.on_close = lambda w: self.closed.append(w)
+  self.conn = sw.OFConnection(self.worker)
+  if period is not None: kw["expire_period"] = period
+  self.sw = ExpiringSwitch(dpid, ports=ports, **kw)
+  self.sw.set_connection(self.conn)
+  self.out = []
+  self.sw.addListener(sw.DpPacketOut, self._on_out)
+  self.drain()
+  return self
 
 
 class World (object):
-  def __init__ (self, capacity=None):
-    """capacity: size of the switch's flow table (SoftwareSwitch max_entries); None = the default, practically unbounded"""
+  def __init__ (self, capacity=None, selfsweep=None):
+    """capacity: size of the switch's flow table (SoftwareSwitch max_entries); None = the default, practically unbounded
+    selfsweep: None = plain SoftwareSwitch, the harness sweeps by hand; dict(period=None|p) = the self-sweeping
+    ExpiringSwitch (period None: ExpireMixin's default of 2 s, else expire_period=p) under a VScheduler"""
     from mc.env import SwitchStack, VClock
     self.clock = VClock(1000.0)
     self.capacity = capacity
     kw = {} if capacity is None else dict(max_entries=capacity)
-    self.st = SwitchStack(dpid=1, ports=4, clock=self.clock, max_buffers=0, **kw)
+    self.selfsweep = selfsweep
+    self.vs = None
+    if selfsweep is None:
+      self.st = SwitchStack(dpid=1, ports=4, clock=self.clock, max_buffers=0, **kw)
+    else:
+      self.vs = VScheduler(self.clock)
+      self.st = SelfSweepStack(self.clock, period=selfsweep.get("period"), max_buffers=0, **kw)
+      # reference: a switch that expires entries by itself sweeps once per period, counted from its construction
+      self.period = float(selfsweep.get("period") or 2)
+      self.next_sweep = self.clock.now + self.period
+      self.vs.run_until(self.clock.now + SWEEP_OFFSET)
     self.ref = RefTable(capacity=capacity)
     self.xid = 10
     self.bad = []
@@ -158,6 +295,13 @@ class World (object):
       st.sweep(); exp = ref.sweep(now)
     elif k == "sweep":
       st.sweep(); exp = ref.sweep(now)
+    elif k == "run":
+      # time passes with the scheduler running: the switch sweeps when its own timer fires, the reference at every
+      # multiple of the period since the switch was built
+      now = now + op[1]
+      self.vs.run_until(now)
+      while self.next_sweep <= now:
+        exp += ref.sweep(self.next_sweep); self.next_sweep += self.period
     elif k == "rx":
       frame, pkt = (FRAME1, PKT1) if op[1] == 1 else (FRAME2, PKT2)
       cands = ref.candidates(pkt)
@@ -244,6 +388,13 @@ class World (object):
         if not rel and atcap: cl = atcap      # nothing overlaps: the refusal that is missing is the one for the full table
       elif k in ("add", "add-emerg", "mod", "mods", "mod-out") and atcap:
         cl = atcap
+      elif k == "run":
+        # the switch's own sweeps: which entry's notification is absent / unexpected / carries other values
+        ident = lambda m: (m[1][0], m[1][1], m[1][3]) if m[0] == "flow_removed" else m[:1]
+        gi = [ident(m) for m in got]; wi = [ident(m) for m in want]
+        if any(gi.count(x) < wi.count(x) for x in wi): cl = "not-removed-at-first-sweep-after-timeout"
+        elif any(gi.count(x) > wi.count(x) for x in gi): cl = "removed-before-timeout-or-twice"
+        else: cl = "removed-at-other-instant-or-reason"
       gk = sorted(set(m[0] for m in got)); wk = sorted(set(m[0] for m in want))
       self.fail("%s:%s:got-%s-want-%s" % (k, cl, "+".join(gk) or "none", "+".join(wk) or "none"),
                 "%r: switch emitted %r, specification says %r" % (op, norm(got, wild), norm(want, wild)))
@@ -286,7 +437,12 @@ class World (object):
       real.append((e.priority, e.cookie, e.idle_timeout, e.hard_timeout, e.flags, e.packet_count, e.byte_count,
                    round(now - e.created, 1), round(now - e.last_touched, 1), digest(e.match.pack()),
                    tuple(getattr(a, "port", None) for a in e.actions)))
-    return (model, real, self.capacity)
+    if self.vs is None: return (model, real, self.capacity)
+    tm = getattr(self.st.sw, "_expire_timer", None)
+    wake = self.vs.sleeping(tm)
+    timer = (None if wake is None else round(wake - now, 3), getattr(tm, "_cancelled", None), round(getattr(tm, "_next", now) - now, 3),
+             len(self.vs.sch._ready), len(self.vs.hub._tasks))
+    return (model, real, self.capacity, ("self-sweep", self.period, round(self.next_sweep - now, 3)), timer)
 
 
 ROOTS = [
@@ -315,15 +471,45 @@ CAP_ROOTS = [
   (3, ROOTS[4][:3], -1),                          # one below full, staggered timeouts
 ]
 
-def make_expand (root, capacity=None):
+# The self-sweeping switch (ExpireMixin's recoco Timer run by the real scheduler on the virtual clock).
+# (expire_period or None = ExpireMixin's default, root, depth = tier depth + this, alphabet).  Roots are installed at
+# construction + 0.25 s; the periodic sweeps fall on construction + k * period.
+SWEEP_ROOTS = [
+  # from the empty table: the first sweeps find nothing at all
+  (None, (), 0, "core"),
+  (None, (), -1, "full"),
+  # idle + hard + permanent, installed together: one sweep finds nothing, the next finds everything that can expire
+  (None, ROOTS[1], -1, "full"),
+  # staggered: a sweep that finds nothing, one that finds some (and leaves a younger idle and a younger hard entry),
+  # one that finds the rest; a sweep has already run (and found nothing) when the younger entries are installed
+  (None, (("add", "A", 1, "rem-hard"), ("add", "B", 2, "rem-idle"), ("run", 2.0), ("add", "C", 1, "rem-hard"), ("add", "D", 1, "rem-idle")), -1, "full"),
+  # periods given as expire_period: shorter than both timeouts (several empty sweeps before anything is due), and as
+  # long as the hard timeout
+  (1, (("add", "A", 1, "rem-hard"), ("add", "C", 2, "rem-idle"), ("add", "B", 1, "plain")), -1, "full"),
+  (3, ROOTS[1], -1, "full"),
+]
+
+def make_expand (root, capacity=None, selfsweep=None, ops=None):
+  if ops is None: ops = OPS
   def expand (h):
-    w = World(capacity)
+    w = World(capacity, selfsweep)
     out = None
-    for op in root: w.apply(op)
+    rootbad = []
+    for op in root:
+      w.apply(op)
+      if selfsweep is not None: rootbad += w.bad        # these roots contain ("run", d), which nothing else checks
     for op in h: out = w.apply(op)
     extra = dict(root=[list(o) for o in root])
     if capacity is not None: extra["capacity"] = capacity
-    return dict(key=w.key(), ops=OPS, bad=w.bad if h else [], out=out, replay_extra=extra)
+    bad = w.bad if h else rootbad
+    key = w.key()
+    if selfsweep is not None:
+      extra["selfsweep"] = selfsweep
+      if not bad:
+        # close the history: no further input, the switch's own sweeps must clear everything that can time out
+        w.apply(("run", SETTLE)); bad = w.bad
+        if bad: extra["settle"] = SETTLE
+    return dict(key=key, ops=ops, bad=bad, out=out, replay_extra=extra)
   return expand
 
 
@@ -332,6 +518,7 @@ def run (cfg):
   boot()
   rep = Report(PID, "model_checking")
   depth = cfg.pick(3, 4)
+  sops = dict(full=sweep_ops(thorough=not cfg.quick), core=sweep_ops(thorough=not cfg.quick, core=True))
   rep.rule = ("breadth-first search, every reachable table state expanded once, over histories of <=%d operations (from the empty table; one less from four populated tables) from %d: "
               "ADD x matches {in_port=1; in_port=1,dl_type=IP; dl_type=IP; exact} x priority {1,2} x {plain, CHECK_OVERLAP, set_vlan_vid+output, "
               "SEND_FLOW_REM+idle 2, SEND_FLOW_REM+hard 3}, ADD+EMERG, MODIFY, MODIFY_STRICT, DELETE, DELETE_STRICT, DELETE with "
@@ -340,10 +527,27 @@ def run (cfg):
               "as are the emitted error / flow-removed / packet-in messages; distinct = (last op, observation).  "
               "The same search is repeated against switches whose flow table holds at most 0, 1, 2, 3 entries (%s), so every "
               "installing command (new ADD, replacing ADD, CHECK_OVERLAP, EMERG, MODIFY* acting as ADD) meets a full table, a table "
-              "one below full, and one freed by DELETE*, an expiry sweep or a replacement"
+              "one below full, and one freed by DELETE*, an expiry sweep or a replacement.  "
+              "In all of the above the harness fires the sweep (table.remove_expired_entries()).  Self-sweeping switch: the same search "
+              "against pox.datapaths' ExpiringSwitch (ExpireMixin + SoftwareSwitch) whose sweep is the callback of the recurring "
+              "pox.lib.recoco Timer ExpireMixin starts, that Timer task being run by a real recoco Scheduler with the inline SelectHub on "
+              "the virtual clock (virtual select(): jumps to the earliest timer, never beyond the instant run to); no sweep by hand - "
+              "instead time passes %s s with the scheduler running, the sweeps being the ones the switch's timer makes; the reference "
+              "sweeps at every multiple of the period since the switch was built; operations arrive 0.25 s + multiples of 0.5 s after "
+              "that.  Searches: %s.  Every history of these searches (roots included) is closed by letting %.1f s pass without input "
+              "(all sweeps in that span checked: entries with a timeout go at their first sweep after it with one flow-removed, "
+              "the others stay), so each enumerated history is also checked for what an earlier sweep - one that found nothing, "
+              "something or everything expired - does to the later ones"
               % (depth, len(OPS), "; ".join("capacity %d: <=%d operations from %s" % (c, max(1, depth + dd), "a populated table" if r else "the empty table")
-                                           for c, r, dd in CAP_ROOTS)))
-  rep.bound = dict(depth=depth, operations=len(OPS), table_capacities=sorted(set(c for c, r, dd in CAP_ROOTS)) + ["default (0x7fffffff)"])
+                                           for c, r, dd in CAP_ROOTS),
+                 " / ".join("%g" % o[1] for o in sops["full"] if o[0] == "run"),
+                 "; ".join("expire_period %s, <=%d operations out of %d from %s" % ("default (2 s)" if p is None else "= %d s" % p, max(1, depth + dd), len(sops[a]),
+                                                                                   "a table with idle, hard and permanent entries%s" % (" installed on both sides of a sweep" if any(o[0] == "run" for o in r) else "") if r else "the empty table")
+                           for p, r, dd, a in SWEEP_ROOTS), SETTLE))
+  rep.bound = dict(depth=depth, operations=len(OPS), table_capacities=sorted(set(c for c, r, dd in CAP_ROOTS)) + ["default (0x7fffffff)"],
+                   self_sweep=dict(expire_periods=["default"] + sorted(set(p for p, r, dd, a in SWEEP_ROOTS if p is not None)),
+                                   operations=dict((a, len(sops[a])) for a in sops), settle_seconds=SETTLE,
+                                   run_steps=[o[1] for o in sops["full"] if o[0] == "run"]))
   rep.assumptions = ["clock steps are non-integral so no sweep lands exactly on a timeout boundary",
                      "among equal-priority overlapping entries a lookup may return either (specification leaves it open)",
                      "when idle and hard timeouts have both passed either removal reason is accepted",
@@ -351,12 +555,23 @@ def run (cfg):
                      "an ADD whose match and priority equal an installed entry's takes that entry's place and needs no free slot; any other "
                      "installing command on a full table is refused with ALL_TABLES_FULL and leaves the table alone; entries whose timeout has "
                      "passed occupy their slot until the sweep removes them",
-                     "an ADD that both overlaps (CHECK_OVERLAP) and finds the table full may be refused with either code"]
+                     "an ADD that both overlaps (CHECK_OVERLAP) and finds the table full may be refused with either code",
+                     "self-sweeping switch: a switch that expires entries by itself sweeps once per expire_period (ExpireMixin's default: "
+                     "2 s), counted from its construction, for as long as it exists; a sweep and the scheduler's bookkeeping take no "
+                     "virtual time; the scheduler, select hub and Timer are the real pox.lib.recoco code, only select() and time are "
+                     "virtual; whatever a task raises into Scheduler.cycle (which drops the task) counts as raised by the operation; "
+                     "controller messages and frames are handled between scheduler steps (cooperative tasks, as in POX)",
+                     "self-sweeping switch: state key additionally holds the phase of the reference's next sweep and the switch's timer "
+                     "(wake-up instant in the select hub, cancelled flag, ready-queue and hub sizes)"]
   for i, root in enumerate(ROOTS):
     # start from the empty table and from two populated tables (defects rarely show from the initial state)
     bfs(make_expand(root), depth if i == 0 else depth - 1, rep, workers=cfg.workers, seed=cfg.seed, max_states=cfg.pick(400000, 2000000))
   for cap, root, dd in CAP_ROOTS:
     bfs(make_expand(root, cap), max(1, depth + dd), rep, workers=cfg.workers, seed=cfg.seed, max_states=cfg.pick(400000, 2000000))
+  for period, root, dd, alpha in SWEEP_ROOTS:
+    bfs(make_expand(root, None, dict(period=period), sops[alpha]), max(1, depth + dd), rep, workers=cfg.workers, seed=cfg.seed,
+        max_states=cfg.pick(400000, 2000000))
+  rep.extra["self_sweep_roots"] = [dict(expire_period=p, root=list(map(list, r)), depth=max(1, depth + dd), operations=len(sops[a])) for p, r, dd, a in SWEEP_ROOTS]
   rep.extra["roots"] = [list(map(list, r)) for r in ROOTS]
   rep.extra["capacity_roots"] = [dict(capacity=c, root=list(map(list, r)), depth=max(1, depth + dd)) for c, r, dd in CAP_ROOTS]
   return rep
@@ -365,10 +580,15 @@ def run (cfg):
 def replay (cfg, data):
   from mc.env import boot
   boot()
-  w = World(data.get("capacity")); lines = []
-  for op in data.get("root", []): w.apply(tuple(op))
-  for op in data["history"]:
-    op = tuple(op)
+  w = World(data.get("capacity"), data.get("selfsweep")); lines = []
+  bad = []
+  for op in data.get("root", []):
+    out = w.apply(tuple(op))
+    if data.get("selfsweep") is not None:
+      lines.append("root %r -> %r %s" % (tuple(op), out, w.bad or "")); bad += w.bad
+  hist = [tuple(op) for op in data["history"]]
+  if data.get("settle"): hist.append(("run", data["settle"]))
+  for op in hist:
     out = w.apply(op)
     lines.append("%r -> %r %s" % (op, out, w.bad or ""))
-  return bool(w.bad), "\n".join(lines)
+  return bool(w.bad or bad), "\n".join(lines)
